@@ -13,6 +13,7 @@ import Cpf.Rules.RuleFile
 import Cpf.Rules.Ci
 import Cpf.Rules.Bundle
 import Cpf.Scan.Walk
+import Cpf.Rules.JsonDoc
 import Cpf.Generated.Grammar
 
 open Cpf.Query Cpf.Go Cpf.Generated
@@ -216,6 +217,44 @@ def handle (fields : List String) : List String :=
         match o with
         | some c => String.ofList c
         | none => "<undecodable>")
+  | "jsondoc" :: fields =>
+      -- fields: preorder of a document: "S" text | "N" digits | "A" n | "O" n (then n times: key, value)
+      -- answer: the compact encoding, whether it decodes back to the same document
+      let rec val (fuel : Nat) (fs : List String) : Option (Cpf.Rules.JsonDoc.JV × List String) :=
+        match fuel, fs with
+        | 0, _ => none
+        | _ + 1, "S" :: t :: rest => some (.str t.toList, rest)
+        | _ + 1, "N" :: d :: rest => some (.num d.toList, rest)
+        | fuel + 1, "A" :: n :: rest =>
+            let rec elems (m : Nat) (i : Nat) (fs : List String) (acc : List Cpf.Rules.JsonDoc.JV) : Option (List Cpf.Rules.JsonDoc.JV × List String) :=
+              match m, i with
+              | _, 0 => some (acc.reverse, fs)
+              | 0, _ => none
+              | m + 1, i + 1 =>
+                  match val fuel fs with
+                  | some (v, rest') => elems m i rest' (v :: acc)
+                  | none => none
+            (elems (rest.length + 1) (n.toNat?.getD 0) rest []).map (fun p => (Cpf.Rules.JsonDoc.JV.arr p.1, p.2))
+        | fuel + 1, "O" :: n :: rest =>
+            let rec membs (m : Nat) (i : Nat) (fs : List String) (acc : List (List Char × Cpf.Rules.JsonDoc.JV)) : Option (List (List Char × Cpf.Rules.JsonDoc.JV) × List String) :=
+              match m, i, fs with
+              | _, 0, fs => some (acc.reverse, fs)
+              | 0, _, _ => none
+              | m + 1, i + 1, k :: fs' =>
+                  match val fuel fs' with
+                  | some (v, rest') => membs m i rest' ((k.toList, v) :: acc)
+                  | none => none
+              | _, _, [] => none
+            (membs (rest.length + 1) (n.toNat?.getD 0) rest []).map (fun p => (Cpf.Rules.JsonDoc.JV.obj p.1, p.2))
+        | _, _ => none
+      match val (fields.length + 1) fields with
+      | some (v, _) =>
+          let text := Cpf.Rules.JsonDoc.enc v
+          let back := match Cpf.Rules.JsonDoc.decode text with
+            | some v' => if Cpf.Rules.JsonDoc.enc v' == text then "roundtrip" else "differs"
+            | none => "undecodable"
+          [String.ofList text, back, if Cpf.Rules.JsonDoc.wf v then "wf" else "not-wf"]
+      | none => ["bad-doc"]
   | "walk-model" :: root :: ents =>
       -- ents: preorder of the tree below and including the root: "F" name lstatErr | "D" name lstatErr readErr nkids
       let rec ent (fuel : Nat) (fs : List String) : Option (Cpf.Scan.Walk.Ent × List String) :=
